@@ -20,7 +20,7 @@
 //! Behaviours b: doc:<id> mime:<id> bad s<code> s<code>ra close mid trunc stall refuse
 //! (`refuse` is fixed per group by the `down` mask: bit0 https, bit1 http, bit2 tcp).
 use cascette_protocol::mime_parser::is_v1_mime_response;
-use cascette_protocol::{CacheConfig, ClientConfig, ProtocolError, RibbitClient, RibbitTactClient};
+use cascette_protocol::{CacheConfig, CdnClient, CdnConfig, CdnEndpoint, ClientConfig, ContentType, ProtocolError, RibbitClient, RibbitTactClient, TactClient};
 use std::collections::{BTreeMap, BTreeSet};
 use std::path::PathBuf;
 use std::sync::{Arc, Mutex};
@@ -106,7 +106,7 @@ fn mime_doc(id: u32) -> Vec<u8> {
         "\r\n",
         "--RibbitBoundary\r\n",
         "Content-Type: text/plain\r\n",
-        "Content-Disposition: version\r\n",
+        "Content-Disposition: data\r\n",
         "\r\n",
         &bpsv_doc(id),
         "\r\n",
@@ -130,6 +130,10 @@ enum Beh {
     Stall,
     Refuse,
     Segs(Vec<Vec<u8>>),
+    /// serve exactly these bytes (HTTP: with this status; TCP: the bytes, then close); the tag is
+    /// the generator's own label of the body: Some((seqn, rows)) = well-formed by construction,
+    /// None = malformed by construction (read by the oracle only, never by the model)
+    Raw(u16, Vec<u8>, Option<(u32, u32)>),
 }
 
 fn parse_beh(s: &str) -> Option<Beh> {
@@ -145,6 +149,18 @@ fn parse_beh(s: &str) -> Option<Beh> {
                 Beh::Doc(r.parse().ok()?)
             } else if let Some(r) = s.strip_prefix("mime:") {
                 Beh::Mime(r.parse().ok()?)
+            } else if let Some(r) = s.strip_prefix('r') {
+                let p: Vec<&str> = r.split(':').collect();
+                if p.len() != 3 { return None; }
+                let code: u16 = p[0].parse().ok()?;
+                if !(200..=599).contains(&code) { return None; }
+                let tag = if p[2] == "m" {
+                    None
+                } else {
+                    let (a, b) = p[2].strip_prefix('g')?.split_once('.')?;
+                    Some((a.parse().ok()?, b.parse().ok()?))
+                };
+                Beh::Raw(code, unhex(p[1])?, tag)
             } else if let Some(r) = s.strip_prefix('s') {
                 let (num, ra) = match r.strip_suffix("ra") {
                     Some(n) => (n, true),
@@ -215,9 +231,12 @@ const NAMES: [&str; 3] = ["https", "http", "tcp"];
 /// make the client's pending timeout (30 s in TactClient / RibbitClient) elapse without waiting:
 /// the runtime is current-thread, so its clock can be paused, advanced and resumed.
 async fn jump_clock() {
+    jump_clock_by(31).await;
+}
+async fn jump_clock_by(secs: u64) {
     tokio::time::sleep(Duration::from_millis(5)).await;
     tokio::time::pause();
-    tokio::time::advance(Duration::from_secs(31)).await;
+    tokio::time::advance(Duration::from_secs(secs)).await;
     tokio::time::resume();
 }
 
@@ -277,6 +296,9 @@ async fn handle_http(mut s: TcpStream, which: usize, sh: Sh) {
             let body: &[u8] = if code == 204 || code == 304 { b"" } else { b"status\n" };
             let _ = s.write_all(&resp(code, if ra { "Retry-After: 1\r\n" } else { "" }, body)).await;
         }
+        Beh::Raw(code, body, _) => {
+            let _ = s.write_all(&resp(code, "", &body)).await;
+        }
         Beh::Close => {}
         Beh::Mid | Beh::Trunc => {
             let full = bpsv_doc(7);
@@ -327,6 +349,9 @@ async fn handle_tcp(mut s: TcpStream, sh: Sh) {
         }
         Beh::Bad | Beh::Status(..) => {
             let _ = s.write_all(b"<html>this is not a BPSV table</html>\n").await;
+        }
+        Beh::Raw(_, body, _) => {
+            let _ = s.write_all(&body).await;
         }
         Beh::Close => {}
         Beh::Mid => {
@@ -400,6 +425,236 @@ async fn start_net(down: u8) -> Net {
     Net { sh, ports, _reserved: reserved }
 }
 
+
+// ---------------------------------------------------------------------------------------------
+// CDN mock server (fourth loopback server of a group): the k-th request of the current `dl` line
+// is answered by the k-th step of the line's script (the last step repeats)
+// ---------------------------------------------------------------------------------------------
+#[derive(Clone, Debug, PartialEq)]
+enum CdnStep {
+    Resp(u16, Vec<u8>),
+    Close,
+    /// 200 with Content-Length = len, half of the body, then the connection is dropped
+    Mid(Vec<u8>),
+    Stall,
+    Refuse,
+}
+
+fn parse_script(s: &str) -> Option<Vec<CdnStep>> {
+    let mut v = vec![];
+    for t in s.split(',') {
+        v.push(match t {
+            "close" => CdnStep::Close,
+            "stall" => CdnStep::Stall,
+            "refuse" => CdnStep::Refuse,
+            _ => {
+                if let Some(h) = t.strip_prefix("mid:") {
+                    let b = unhex(h)?;
+                    if b.len() < 2 { return None; }
+                    CdnStep::Mid(b)
+                } else {
+                    let (c, h) = t.strip_prefix('s')?.split_once(':')?;
+                    let code: u16 = c.parse().ok()?;
+                    if !(200..=599).contains(&code) { return None; }
+                    CdnStep::Resp(code, unhex(h)?)
+                }
+            }
+        });
+    }
+    // `refuse` needs its own port: only as the whole script
+    if v.is_empty() || v.len() > 6 || (v.contains(&CdnStep::Refuse) && v.len() != 1) { return None; }
+    Some(v)
+}
+
+struct CdnShared {
+    script: Vec<CdnStep>,
+    served: usize,
+    paths: Vec<String>,
+}
+type CdnSh = Arc<Mutex<CdnShared>>;
+
+async fn handle_cdn(mut s: TcpStream, sh: CdnSh) {
+    let _ = s.set_nodelay(true);
+    let mut buf = Vec::new();
+    let mut tmp = [0u8; 2048];
+    loop {
+        match s.read(&mut tmp).await {
+            Ok(0) | Err(_) => return,
+            Ok(n) => {
+                buf.extend_from_slice(&tmp[..n]);
+                if buf.windows(4).any(|w| w == b"\r\n\r\n") { break; }
+            }
+        }
+    }
+    let head = String::from_utf8_lossy(&buf).to_string();
+    let path = head.split(' ').nth(1).unwrap_or("?").to_string();
+    let step = {
+        let mut g = sh.lock().unwrap();
+        g.paths.push(path);
+        let k = g.served.min(g.script.len().saturating_sub(1));
+        g.served += 1;
+        g.script.get(k).cloned().unwrap_or(CdnStep::Close)
+    };
+    match step {
+        CdnStep::Resp(code, body) => {
+            let mut v = format!(
+                "HTTP/1.1 {code} X\r\nContent-Type: application/octet-stream\r\nContent-Length: {}\r\nConnection: close\r\n\r\n",
+                body.len()
+            )
+            .into_bytes();
+            v.extend_from_slice(&body);
+            let _ = s.write_all(&v).await;
+        }
+        CdnStep::Close | CdnStep::Refuse => {}
+        CdnStep::Mid(body) => {
+            let head = format!(
+                "HTTP/1.1 200 X\r\nContent-Type: application/octet-stream\r\nContent-Length: {}\r\nConnection: close\r\n\r\n",
+                body.len()
+            );
+            let _ = s.write_all(head.as_bytes()).await;
+            let _ = s.write_all(&body[..body.len() / 2]).await;
+            let _ = s.flush().await;
+            tokio::time::sleep(Duration::from_millis(3)).await;
+        }
+        CdnStep::Stall => {
+            jump_clock_by(46).await; // HttpClient: 45 s total timeout
+            hold_until_peer_closes(&mut s).await;
+        }
+    }
+    let _ = s.shutdown().await;
+}
+
+struct CdnNet {
+    sh: CdnSh,
+    port: u16,
+    refuse_port: u16,
+    _reserved: TcpSocket,
+}
+
+async fn start_cdn() -> CdnNet {
+    let sh: CdnSh = Arc::new(Mutex::new(CdnShared { script: vec![], served: 0, paths: vec![] }));
+    let l = TcpListener::bind("127.0.0.1:0").await.expect("bind");
+    let port = l.local_addr().unwrap().port();
+    let sh2 = sh.clone();
+    tokio::spawn(async move {
+        loop {
+            let Ok((s, _)) = l.accept().await else { break };
+            tokio::spawn(handle_cdn(s, sh2.clone()));
+        }
+    });
+    let (r, refuse_port) = reserved_port();
+    CdnNet { sh, port, refuse_port, _reserved: r }
+}
+
+fn parse_ct(s: &str) -> Option<ContentType> {
+    Some(match s { "config" => ContentType::Config, "data" => ContentType::Data, "patch" => ContentType::Patch, _ => return None })
+}
+fn cdn_path_ok(p: &str) -> bool {
+    !p.is_empty() && p.len() <= 64 && p.bytes().all(|b| b.is_ascii_lowercase() || b.is_ascii_digit() || b == b'/') && !p.starts_with('/') && !p.contains("//")
+}
+/// the key under which the property expects the object (documented layout cdn/{path}/{type}/{xx}/{yy}/{hex})
+fn cdn_cache_key(path: &str, ct: &str, key: &[u8]) -> String {
+    let h = hex::encode(key);
+    format!("cdn/{}/{}/{}/{}/{}", path.trim_end_matches('/'), ct, &h[..2], &h[2..4], h)
+}
+const JUNK: &[u8] = b"\xff\xfe junk without a schema line\n";
+
+// ---------------------------------------------------------------------------------------------
+// reqwest error classes: one request of the real TactClient against a one-shot server
+// ---------------------------------------------------------------------------------------------
+const HTTPERR_BEH: [&str; 13] = [
+    "refuse", "close", "midhead", "mid", "garbage", "stallhead", "stallbody", "badchunk", "badgzip", "redirloop",
+    "redirnoloc", "badurl", "ok",
+];
+
+async fn http_err_probe(beh: &str) -> Option<String> {
+    if !HTTPERR_BEH.contains(&beh) { return None; }
+    let l = TcpListener::bind("127.0.0.1:0").await.ok()?;
+    let port = l.local_addr().ok()?.port();
+    let (_keep, refuse_port) = reserved_port();
+    let b = beh.to_string();
+    tokio::spawn(async move {
+        loop {
+            let Ok((mut s, _)) = l.accept().await else { break };
+            let b = b.clone();
+            tokio::spawn(async move {
+                let mut buf = Vec::new();
+                let mut tmp = [0u8; 2048];
+                loop {
+                    match s.read(&mut tmp).await {
+                        Ok(0) | Err(_) => return,
+                        Ok(n) => {
+                            buf.extend_from_slice(&tmp[..n]);
+                            if buf.windows(4).any(|w| w == b"\r\n\r\n") { break; }
+                        }
+                    }
+                }
+                let doc = bpsv_doc(9);
+                match b.as_str() {
+                    "ok" => {
+                        let _ = s.write_all(format!("HTTP/1.1 200 OK\r\nContent-Length: {}\r\nConnection: close\r\n\r\n{doc}", doc.len()).as_bytes()).await;
+                    }
+                    "midhead" => {
+                        let _ = s.write_all(b"HTTP/1.1 200 OK\r\nContent-Le").await;
+                    }
+                    "mid" => {
+                        let _ = s.write_all(format!("HTTP/1.1 200 OK\r\nContent-Length: {}\r\nConnection: close\r\n\r\n{}", doc.len(), &doc[..doc.len() / 2]).as_bytes()).await;
+                        let _ = s.flush().await;
+                        tokio::time::sleep(Duration::from_millis(3)).await;
+                    }
+                    "garbage" => {
+                        let _ = s.write_all(b"\x00\x01\x02 this is not HTTP\r\n\r\n").await;
+                    }
+                    "stallhead" => {
+                        jump_clock().await;
+                        hold_until_peer_closes(&mut s).await;
+                    }
+                    "stallbody" => {
+                        let _ = s.write_all(format!("HTTP/1.1 200 OK\r\nContent-Length: {}\r\nConnection: close\r\n\r\n{}", doc.len(), &doc[..doc.len() / 2]).as_bytes()).await;
+                        let _ = s.flush().await;
+                        jump_clock().await;
+                        hold_until_peer_closes(&mut s).await;
+                    }
+                    "badchunk" => {
+                        let _ = s.write_all(b"HTTP/1.1 200 OK\r\nTransfer-Encoding: chunked\r\nConnection: close\r\n\r\nzz\r\nnot a chunk\r\n").await;
+                    }
+                    "badgzip" => {
+                        let _ = s.write_all(b"HTTP/1.1 200 OK\r\nContent-Encoding: gzip\r\nContent-Length: 12\r\nConnection: close\r\n\r\nnot gzip at!").await;
+                    }
+                    "redirloop" => {
+                        let _ = s.write_all(b"HTTP/1.1 302 Found\r\nLocation: /x/versions\r\nContent-Length: 0\r\nConnection: close\r\n\r\n").await;
+                    }
+                    "redirnoloc" => {
+                        let _ = s.write_all(b"HTTP/1.1 302 Found\r\nContent-Length: 0\r\nConnection: close\r\n\r\n").await;
+                    }
+                    _ => {} // close
+                }
+                let _ = s.shutdown().await;
+            });
+        }
+    });
+    let base = match beh {
+        "refuse" => format!("http://127.0.0.1:{refuse_port}"),
+        "badurl" => "http://127.0.0.1:99999".to_string(),
+        _ => format!("http://127.0.0.1:{port}"),
+    };
+    let c = TactClient::new(base, false).ok()?;
+    Some(match c.query("v1/products/x/versions").await {
+        Ok(d) => doc_class(&d),
+        Err(e) => {
+            let retry = e.should_retry();
+            let class = err_class(&e);
+            match &e {
+                ProtocolError::Http(h) => format!(
+                    "http t={} c={} r={} b={} d={} class={class} retry={retry}",
+                    h.is_timeout() as u8, h.is_connect() as u8, h.is_request() as u8, h.is_body() as u8, h.is_decode() as u8
+                ),
+                _ => format!("err:{class} retry={retry}"),
+            }
+        }
+    })
+}
+
 // ---------------------------------------------------------------------------------------------
 // one group of request lines
 // ---------------------------------------------------------------------------------------------
@@ -444,6 +699,7 @@ struct GroupState {
     dir: Option<tempfile::TempDir>,
     clients: Vec<RibbitTactClient>,
     t0: Instant,
+    cdn: CdnNet,
 }
 
 fn mk_client(cfg: &Cfg, net: &Net, dir: Option<PathBuf>) -> Option<RibbitTactClient> {
@@ -498,7 +754,8 @@ async fn run_group(lines: &[String]) -> Vec<(String, Option<QInfo>)> {
                     let net = start_net(cfg.down).await;
                     let dir = if cfg.disk { Some(tempfile::tempdir().ok()?) } else { None };
                     let c = mk_client(&cfg, &net, dir.as_ref().map(|d| d.path().join("cache")))?;
-                    st = Some(GroupState { cfg, net, dir, clients: vec![c], t0: Instant::now() });
+                    let cdn = start_cdn().await;
+                    st = Some(GroupState { cfg, net, dir, clients: vec![c], t0: Instant::now(), cdn });
                     Some("ok".to_string())
                 }
                 "new" if toks.len() == 1 => {
@@ -518,6 +775,80 @@ async fn run_group(lines: &[String]) -> Vec<(String, Option<QInfo>)> {
                         Some("nofile".into())
                     }
                 }
+                "corruptdl" if toks.len() == 4 => {
+                    let g = st.as_mut()?;
+                    let d = g.dir.as_ref()?;
+                    parse_ct(toks[2])?;
+                    if !cdn_path_ok(toks[1]) { return None; }
+                    let key = unhex(toks[3])?;
+                    if key.len() < 2 || key.len() > 32 { return None; }
+                    let p = d.path().join("cache").join(cdn_cache_key(toks[1], toks[2], &key));
+                    if p.is_file() {
+                        std::fs::write(&p, JUNK).ok()?;
+                        Some("ok".into())
+                    } else {
+                        Some("nofile".into())
+                    }
+                }
+                "dl" if toks.len() == 7 => {
+                    let g = st.as_mut()?;
+                    let ci: usize = toks[1].parse().ok()?;
+                    let t: u64 = toks[2].parse().ok()?;
+                    let (path, cts) = (toks[3], toks[4]);
+                    let ct = parse_ct(cts)?;
+                    if !cdn_path_ok(path) { return None; }
+                    let key = unhex(toks[5])?;
+                    if key.len() > 32 { return None; }
+                    let script = parse_script(toks[6])?;
+                    if ci >= g.clients.len() { return None; }
+                    let el = g.t0.elapsed().as_millis() as u64;
+                    if t > el {
+                        tokio::time::sleep(Duration::from_millis(t - el)).await;
+                    }
+                    let refuse = script[0] == CdnStep::Refuse;
+                    {
+                        let mut s = g.cdn.sh.lock().unwrap();
+                        s.script = script;
+                        s.served = 0;
+                        s.paths.clear();
+                    }
+                    let cdn = CdnClient::new(g.clients[ci].cache().clone(), CdnConfig::default()).ok()?;
+                    let ep = CdnEndpoint {
+                        host: format!("127.0.0.1:{}", if refuse { g.cdn.refuse_port } else { g.cdn.port }),
+                        path: path.to_string(),
+                        product_path: None,
+                        scheme: Some("http".to_string()),
+                        is_fallback: false,
+                        strict: false,
+                        max_hosts: None,
+                    };
+                    let start = g.t0.elapsed().as_millis() as u64;
+                    let r = cdn.download(&ep, ct, &key).await;
+                    let end = g.t0.elapsed().as_millis() as u64;
+                    info = Some(QInfo { late_ms: start.saturating_sub(t), dur_ms: end - start });
+                    tokio::task::yield_now().await;
+                    let (reqs, url) = {
+                        let s = g.cdn.sh.lock().unwrap();
+                        let mut ps = s.paths.clone();
+                        ps.dedup();
+                        (s.paths.len(), if ps.is_empty() { "-".to_string() } else { ps.join(",") })
+                    };
+                    let res = match &r {
+                        Ok(b) => format!("ok:{}", hex(b)),
+                        Err(e) => format!("err:{}", err_class(e)),
+                    };
+                    let cache = if key.len() < 2 {
+                        "-".to_string()
+                    } else {
+                        match g.clients[ci].cache().get_bytes(&cdn_cache_key(path, cts, &key)) {
+                            Err(_) => "err".into(),
+                            Ok(None) => "miss".into(),
+                            Ok(Some(b)) => format!("hit:{}", hex(&b)),
+                        }
+                    };
+                    Some(format!("reqs={reqs} url={url} res={res} cache={cache}"))
+                }
+                "httperr" if toks.len() == 2 => http_err_probe(toks[1]).await,
                 "q" if toks.len() == 7 => {
                     let g = st.as_mut()?;
                     let ci: usize = toks[1].parse().ok()?;
@@ -670,6 +1001,13 @@ fn classify(which: usize, b: &Beh) -> Class {
         // transient transport failure
         (_, Beh::Close | Beh::Mid | Beh::Trunc | Beh::Stall | Beh::Refuse) => Class::Transient,
         (_, Beh::Segs(_)) => Class::Definitive,
+        (2, Beh::Raw(_, _, tag)) | (_, Beh::Raw(200, _, tag)) => match tag {
+            Some((id, rows)) => Class::Good(*id, *rows),
+            None => Class::Definitive, // malformed body: not transient
+        },
+        (_, Beh::Raw(c, _, _)) => {
+            if *c == 429 || (500..600).contains(c) { Class::Transient } else { Class::Definitive }
+        }
     }
 }
 
